@@ -123,6 +123,11 @@ func checkCase(c Case) *h.Failure {
 		if crash != nil {
 			return nil
 		}
+		if o.outcome == "budget" || first.outcome == "budget" {
+			// a budget of the harness (fuel, live heap) cut one of the runs; the heap budget depends on
+			// what the process did before, so it may cut one repetition and not another: no verdict
+			return nil
+		}
 		switch {
 		case o.errs != first.errs:
 			return mk("parse-errors-differ", fmt.Sprintf("repetition %d reports different parse errors %s", i+1, firstDiff(first.errs, o.errs)))
